@@ -6,5 +6,8 @@
 (***************************************************************************)
 EXTENDS GilInt
 \* images: row-major sequence of pixels, width w
+\* a read region <<x, y, w, h>> (w = 0 / h = 0: "up to the full width / height") lies inside a W x H image
+RegionDims(W, H, w, h) == <<IF w = 0 THEN W ELSE w, IF h = 0 THEN H ELSE h>>
+P_RegionInside(W, H, x, y, w, h) == LET d == RegionDims(W, H, w, h) IN x >= 0 /\ y >= 0 /\ w >= 0 /\ h >= 0 /\ x + d[1] <= W /\ y + d[2] <= H
 Crop(pix, W, x, y, w, h) == [i \in 1..(w * h) |-> pix[(y + (i - 1) \div w) * W + x + ((i - 1) % w) + 1]]
 =============================================================================
